@@ -528,6 +528,44 @@ impl Prop for WriterProp {
     }
 
     fn meta(&self) -> Meta {
+        let mut m = self.base_meta();
+        if self.c14 {
+            m.rule = "C11 histories with hostile sinks added (a sink that claims more bytes than offered, a sink that panics inside write; the panic out of write_all is caught and the writer is used again, incl. buf_write_ptr + advance_unchecked and drop); oracle: every byte that reaches the sink must have been written (in-order selection of the written stream), no unexpected panic, and the red zones behind the harness allocator's heap blocks must be intact when the history ends; non-trivial/distinct as for C11";
+        }
+        m
+    }
+
+    fn runs(&self, tier: Tier) -> u64 {
+        self.runs_for(tier)
+    }
+
+    fn gen(&self, rng: &mut Rng, _tier: Tier) -> WriterCase {
+        gen_case(rng, self.c14)
+    }
+
+    fn exec(&self, case: &WriterCase, st: &mut Stats) -> RunOut {
+        self.exec_impl(case, st)
+    }
+
+    fn shrink(&self, case: &WriterCase) -> Vec<WriterCase> {
+        self.shrink_impl(case)
+    }
+
+    fn encode(&self, case: &WriterCase, kv: &mut Kv) {
+        self.encode_impl(case, kv)
+    }
+
+    fn decode(&self, kv: &Kv) -> Option<WriterCase> {
+        self.decode_impl(kv)
+    }
+
+    fn sample(&self, case: &WriterCase) -> Json {
+        self.sample_impl(case)
+    }
+}
+
+impl WriterProp {
+    fn base_meta(&self) -> Meta {
         Meta {
             level: "exploration",
             rule: "seeded operation histories (<= 84 ops: write / write_all / write_all_defer_err of 0..3*capacity bytes, ascii_digits for all 12 integer types, buf_write_ptr+advance_unchecked, the real cnf/wcnf/gcnf/aag/aig/btor2 writers, flush, flush_defer_err, check_io_error, drop) on a real DeferredWriter (capacities 0..300 through the verif hook, and the shipped 16 KiB constructor) over a SimSink (accept-all / short writes + Interrupted / failing incl. Ok(0)); a run is non-trivial iff the sink was called at least twice (capacity flushes or write-through happened); distinct = distinct (capacity, sink-trace hash, op-history hash)",
@@ -541,7 +579,7 @@ impl Prop for WriterProp {
         }
     }
 
-    fn runs(&self, tier: Tier) -> u64 {
+    fn runs_for(&self, tier: Tier) -> u64 {
         let dbg = cfg!(debug_assertions);
         match (self.c14, tier, dbg) {
             (false, Tier::Quick, true) => 200_000,
@@ -555,11 +593,7 @@ impl Prop for WriterProp {
         }
     }
 
-    fn gen(&self, rng: &mut Rng, _tier: Tier) -> WriterCase {
-        gen_case(rng, self.c14)
-    }
-
-    fn exec(&self, case: &WriterCase, st: &mut Stats) -> RunOut {
+    fn exec_impl(&self, case: &WriterCase, st: &mut Stats) -> RunOut {
         let sink = SimSink::new(case.sink.clone());
         let mut trace = Fnv::default();
         let overruns0 = crate::alloc::overruns();
@@ -961,7 +995,7 @@ impl Prop for WriterProp {
         }
     }
 
-    fn shrink(&self, case: &WriterCase) -> Vec<WriterCase> {
+    fn shrink_impl(&self, case: &WriterCase) -> Vec<WriterCase> {
         let mut out = vec![];
         if case.sink.steps.len() > 0 {
             for i in 0..case.sink.steps.len().min(64) {
@@ -1019,7 +1053,7 @@ impl Prop for WriterProp {
         out
     }
 
-    fn encode(&self, case: &WriterCase, kv: &mut Kv) {
+    fn encode_impl(&self, case: &WriterCase, kv: &mut Kv) {
         kv.put("case.c14", self.c14);
         kv.put(
             "case.cap",
@@ -1038,7 +1072,7 @@ impl Prop for WriterProp {
         );
     }
 
-    fn decode(&self, kv: &Kv) -> Option<WriterCase> {
+    fn decode_impl(&self, kv: &Kv) -> Option<WriterCase> {
         let cap = match kv.get("case.cap")? {
             "shipped" => None,
             s => Some(s.parse().ok()?),
@@ -1057,7 +1091,7 @@ impl Prop for WriterProp {
         })
     }
 
-    fn sample(&self, case: &WriterCase) -> Json {
+    fn sample_impl(&self, case: &WriterCase) -> Json {
         Json::obj(vec![
             (
                 "capacity",
